@@ -1890,3 +1890,28 @@ package resolve
 //@   safety none
 //@   loop 0:
 //@     invariant true
+
+// ----------------------------------------------------------------------------------------------
+// C07, tainted entities: an item is tainted if it is registered itself or contains a registered value at any depth;
+// the search through the members of an object never forgets a hit (it does not depend on the order of the keys)
+//@ func taintedObjects.isTainted
+//@   ensures {a.registered.item.is.tainted} old(has(t, item)) ==> result
+//@   ghost var g_elem bool = false
+//@   at call taintedObjects.isTainted: ghost g_elem = g_elem || result
+//@   ensures {a.list.with.a.tainted.element.is.tainted} g_elem ==> result
+//@   modifies *
+//@   loop 0:
+//@     invariant !g_elem
+//@ func taintedObjects.isTainted$1
+//@   ghost var g_t bool = false
+//@   at call? taintedObjects.isTainted: ghost g_t = result
+//@   ensures {once.found.always.found} old(found) ==> found
+//@   ensures {a.tainted.member.is.found} g_t ==> found
+//@   modifies *
+//@ func taintedObjects.filterOutTainted
+//@   ghost var g_t bool = false
+//@   at call taintedObjects.isTainted: ghost g_t = result
+//@   at call append: assert {a.tainted.item.is.left.out} !g_t
+//@   modifies *
+//@   loop 0:
+//@     invariant true
